@@ -64,28 +64,27 @@ theorem forEachSelfRef_fix {T : Type} (dummy : T) (f : T → (Nat → Option T) 
     rw [ih (fun q hq => h q (by simp [hq]))]
     simp
 
-theorem Clock.update_still (fuel : Nat) (c : Clock ℝ) (hc : c.ticking = false) (hs : Parameter.Settled c.speed)
-    (dt : ℝ) (info : Info ℝ) : c.update fuel dt info = some (c, none) := by
+theorem Clock.update_still (c : Clock ℝ) (hc : c.ticking = false) (hs : Parameter.Settled c.speed)
+    (dt : ℝ) (info : Info ℝ) : c.update dt info = (c, none) := by
   unfold Clock.update
   simp only [hc, Parameter.settled_update twCs c.speed dt info hs]
   cases c; simp_all
 
 /-- a still environment is not changed by a chunk -/
-theorem SysEnv.step_still (fuel : Nat) : (SysEnv.envOps (α := ℝ) fuel).StaticOn SysEnv.Still := by
+theorem SysEnv.step_still : (SysEnv.envOps (α := ℝ)).StaticOn SysEnv.Still := by
   intro e x he
   obtain ⟨hm, hc, hl⟩ := he
-  show SysEnv.step fuel e x = e
+  show SysEnv.step e x = e
   unfold SysEnv.step
   have hmods : (ModStore.process SysMod.ops e.mods x (SysEnv.infoOf (fun id => e.clocks.lookup id) [])).1 = [] := by
     rw [hm]; rfl
   simp only [hmods]
-  have hcl : SysEnv.updateClocks fuel e.clocks [] x = some e.clocks := by
+  have hcl : SysEnv.updateClocks e.clocks [] x = some e.clocks := by
     unfold SysEnv.updateClocks
     rw [forEachSelfRef_fix]
     · simp
     · intro p hp view
-      rw [Clock.update_still fuel p.2 (hc p hp).1 (hc p hp).2]
-      rfl
+      rw [Clock.update_still p.2 (hc p hp).1 (hc p hp).2]
   rw [hcl]
   have hls : ∀ info : Info ℝ, e.listeners.map (fun l => l.updateWith x info) = e.listeners :=
     fun info => map_id_of _ _ (fun l hl' => ListenerSt.updateWith_still l (hl l hl').1 (hl l hl').2 x info)
@@ -178,7 +177,7 @@ theorem C11_real_scene_render_partition_invariant {n : Nat} (s : System ℝ n) (
   have hs2 := System.rebuf_still k hk s hs
   have hC := sysComps_lenPres (α := ℝ) s.fuel n
   have hC' := sysCompsN_lenPres s.fuel n
-  have hV := SysEnv.step_still s.fuel
+  have hV := SysEnv.step_still
   -- the two real runs are the normalised runs on the normalised scenes
   obtain ⟨a1, _⟩ := Renderer.runCallbacks_mapComps (sysComps s.fuel n) (sysCompsN s.fuel n) s.V SysSnd.norm (fun e => e)
     hC hC' ch cbs1 s.r hs.clean (sysComps_sim_norm s.fuel n s.r.ibs s.r.dt) hs.comps
@@ -392,7 +391,7 @@ theorem C11_real_scene_partition_invariant {n : Nat} (s : System ℝ n) (hs : s.
   have hs2 := System.rebuf_stillIdle k hk s hs
   have hC := sysComps_lenPres (α := ℝ) s.fuel n
   have hC' := sysCompsN_lenPres s.fuel n
-  have hV := SysEnv.step_still s.fuel
+  have hV := SysEnv.step_still
   let IX : SysEnv ℝ → Prop := fun e => SysEnv.Still e ∧ SysEnv.Idle e
   have hVs : ∀ e, IX e → s.V.start e = e := fun e he => SysEnv.start_idle e he.1 he.2
   have hVi : ∀ e x, IX e → IX (s.V.step e x) := fun e x he => by rw [hV e x he.1]; exact he
@@ -447,7 +446,7 @@ theorem C11_real_still_idle_preserved {n : Nat} (s : System ℝ n) (hs : s.Still
     ({ s with r := (Renderer.runDeviceCallbacks s.C s.V ch s.r cbs).1 } : System ℝ n).StillIdle := by
   have hC := sysComps_lenPres (α := ℝ) s.fuel n
   have hC' := sysCompsN_lenPres s.fuel n
-  have hV := SysEnv.step_still s.fuel
+  have hV := SysEnv.step_still
   let IX : SysEnv ℝ → Prop := fun e => SysEnv.Still e ∧ SysEnv.Idle e
   have hVs : ∀ e, IX e → s.V.start e = e := fun e he => SysEnv.start_idle e he.1 he.2
   have hVi : ∀ e x, IX e → IX (s.V.step e x) := fun e x he => by rw [hV e x he.1]; exact he
@@ -600,7 +599,7 @@ theorem C11_real_scene_callbacks_succeed {n : Nat} (ch : Nat) (hch : 1 ≤ ch) (
       simp [Renderer.runDeviceCallbacks]
     rw [hrun] at h1
     have henv : (Renderer.processLoop s.C s.V ch f (s.r.onStart s.C s.V) f).1.env = s.r.env := by
-      have hV := SysEnv.step_still s.fuel
+      have hV := SysEnv.step_still
       have hst : (s.r.onStart s.C s.V).env = s.r.env := SysEnv.start_idle _ hs.env hs.envIdle
       have key : ∀ (fuel : Nat) (r : Renderer ℝ (SysSnd ℝ) (SysFx ℝ n) (SysSpatial ℝ) (SysEnv ℝ)) (frames : Nat),
           SysEnv.Still r.env → (Renderer.processLoop s.C s.V ch fuel r frames).1.env = r.env := by
